@@ -205,7 +205,7 @@ def r2_name_format_agreement(repo=None, rid="C01.R2"):
     args = rnode.right.elts if isinstance(rnode.right, ast.Tuple) else [rnode.right]
     rb = {}
     for i, a in enumerate(args):
-        if isinstance(a, ast.BinOp) and isinstance(a.op, ast.Mod) and pyfront.const(a.right) == 1000:
+        if isinstance(a, ast.BinOp) and isinstance(a.op, ast.Mod) and pyfront.int_const(a.right, m) == 1000:
             rb[i] = 3
     r_re, _ = rx.printf_to_regex(rfmt, rb)
     rs_re = rx.strftime_to_regex(rsfmt)
